@@ -50,6 +50,8 @@ def rules(ctx):
     C05.r_meta_items(ctx)
     fr.r_tmp_apply(ctx)
     fr.r_selector(ctx)
+    # every pending item is routed: the batches cover the whole candidate set (remainder looped over or passed on)
+    fr.r_worklist(ctx)
     # "followed by a successful build": Ok must mean that no storage error and no cancellation was swallowed on the way --
     # a poll answered `true` that merely stops a loop leaves a half-updated forest behind an Ok (C10's error discipline)
     from props import C10
